@@ -1,5 +1,5 @@
 # replay of a bounded stand-in violation (C11): re-run native/c11_compilers.py
 import sys
-print("gaussian_merge n=4 gates=[('MZgate', (1, 3)), ('Dgate', (1,)), ('Dgate', (0,)), ('Sgate', (0,)), ('Vgate', (1,)), ('Dgate', (0,)), ('MZgate', (3, 2)), ('Sgate', (0,)), ('Vgate', (2,)), ('Dgate', (1,)), ('Dgate', (3,)), ('Kgate', (0,))]: with the opaque gates interpreted as fixed unitaries the compiled program [('Vgate', [2]), ('GaussianTransform', [0]), ('GaussianTransform', [1, 2, 3]), ('Dgate', [0]), ('Dgate', [3]), ('Dgate', [1]), ('Kgate', [0]), ('Vgate', [1]), ('Dgate', [1]), ('MeasureFock', [0, 1, 2, 3])] computes something else (max difference 0.821)")
+print("passive n=4 modes=[3, 1] gates=[('PassiveChannel', (1, 3)), ('Rgate', (1,)), ('Rgate', (1,)), ('Rgate', (3,)), ('Rgate', (1,)), ('BSgate', (3, 1)), ('Rgate', (3,)), ('MZgate', (1, 3)), ('Interferometer', (3, 1)), ('MZgate', (1, 3)), ('Rgate', (3,)), ('MZgate', (3, 1))]: compiled program leaves a different Gaussian state (max difference 0.135)")
 print('REPLAY-VIOLATION')
 sys.exit(1)
